@@ -720,8 +720,12 @@ def replay(pid, case):
         # the library: caches keyed by id(), class-level containers)
         seed, idx = case["hist"]
         rng = random.Random(seed)
-        for i in range(idx):
-            run_case(Acc(), gen_case(rng, f"{seed % 46656:x}x{i:x}"))
         acc = Acc()
+        for i in range(idx):
+            run_case(acc, gen_case(rng, f"{seed % 46656:x}x{i:x}"))
+            if acc.violations:
+                # (which robot of the sequence trips over recycled ids / shared containers varies between processes)
+                acc.violations[0]["what"] = f"(robot #{i} of the shard's sequence, seed {seed}) " + acc.violations[0]["what"]
+                return acc.violations[0]
         run_case(acc, case)
     return acc.violations[0] if acc.violations else None
